@@ -358,7 +358,18 @@ func (bc *BasicCluster) CheckAndPutLoadedRegion(region *RegionInfo, refresh func
 			return nil
 		}
 	}
-	return toDelete
+	// The load visits the records in the order of their ids. A cached region that this record pushes out and whose id
+	// lies AHEAD of the record has not been compared with its own record yet: the cache may lag behind the storage
+	// (a member elected again after another leader's term), and that record may be the newer one - it may even sit in
+	// the page the load has already read, in which case it would be put into the cache right after having been deleted.
+	// It is judged when the load reaches it (and reported then if it is stale).
+	kept := toDelete[:0:0]
+	for _, item := range toDelete {
+		if item.GetID() <= region.GetID() {
+			kept = append(kept, item)
+		}
+	}
+	return kept
 }
 
 // RemoveRegion removes RegionInfo from regionTree and regionMap.
